@@ -23,11 +23,11 @@ theorem createPool_ok {s s' : PmState} {env : PmEnv} {funds : List Coin} {denoms
   unfold createPool at h
   cases pt with
   | cp =>
-    simp only [↓ok_bind, ↓ite_err_ok, ↓bind_ok, ↓err_bind_ok, ↓pure_bind', pure_ok, Prod.mk.injEq] at h
+    simp only [↓ok_bind, ↓ite_err_bind_ok, ↓bind_ok, ↓err_bind_ok, ↓pure_bind', pure_ok, Prod.mk.injEq] at h
     obtain ⟨-, -, -, tf, htf, ⟨⟩, hna, -, -, -, -, hex, -, rfl, rfl⟩ := h
     exact ⟨_, _, _, tf, htf, hna, rfl, by simpa using hex, rfl, rfl⟩
   | stable amp =>
-    simp only [↓ok_bind, ↓ite_err_ok, ↓bind_ok, ↓err_bind_ok, ↓pure_bind', pure_ok, Prod.mk.injEq] at h
+    simp only [↓ok_bind, ↓ite_err_bind_ok, ↓bind_ok, ↓err_bind_ok, ↓pure_bind', pure_ok, Prod.mk.injEq] at h
     obtain ⟨-, -, -, tf, htf, ⟨⟩, hna, -, -, -, -, hex, -, rfl, rfl⟩ := h
     exact ⟨_, _, _, tf, htf, hna, rfl, by simpa using hex, rfl, rfl⟩
 
@@ -61,7 +61,7 @@ theorem withdraw_ok {s s' : PmState} {env : PmEnv} {sender : Addr} {funds : List
       r.msgs = [Msg.bankSend sender refunds, Msg.tfBurn ⟨pool.lpDenom, amount⟩].map
         (fun m => ({ msg := m } : SubMsg)) := by
   unfold withdrawLiquidity at h
-  simp only [↓ok_bind, ↓ite_err_ok, ↓bind_ok, ↓err_bind_ok, ↓pure_bind', pure_ok, Prod.mk.injEq] at h
+  simp only [↓ok_bind, ↓ite_err_bind_ok, ↓bind_ok, ↓err_bind_ok, ↓pure_bind', pure_ok, Prod.mk.injEq] at h
   obtain ⟨pool, hp, -, amt, hpay, -, _, -, -, rf, -, as', has, rfl, rfl⟩ := h
   exact ⟨pool, amt, _, as', hp, mustPay_ok hpay, has, rfl, rfl⟩
 
@@ -80,12 +80,12 @@ theorem pmUpdateConfig_ok {s s' : PmState} {env : PmEnv} {sender : Addr} {fc fm 
   | none =>
     refine ⟨s, Or.inl rfl, ?_⟩
     cases fc <;> cases fm <;>
-      simp only [↓ok_bind, ↓ite_err_ok, ↓ite_err_ok', ↓bind_ok, ↓err_bind_ok, ↓pure_bind', pure_ok, Prod.mk.injEq,
+      simp only [↓ok_bind, ↓ite_err_bind_ok, ↓ite_err_ok', ↓bind_ok, ↓err_bind_ok, ↓pure_bind', pure_ok, Prod.mk.injEq,
         exists_eq_left, exists_and_left] at h
     all_goals simp_all
   | some t =>
     cases fc <;> cases fm <;>
-      simp only [↓ok_bind, ↓ite_err_ok, ↓ite_err_ok', ↓bind_ok, ↓err_bind_ok, ↓pure_bind', pure_ok, Prod.mk.injEq,
+      simp only [↓ok_bind, ↓ite_err_bind_ok, ↓ite_err_ok', ↓bind_ok, ↓err_bind_ok, ↓pure_bind', pure_ok, Prod.mk.injEq,
         exists_eq_left, exists_and_left] at h
     all_goals
       first
@@ -155,7 +155,7 @@ theorem execSwapOps_ok {s s' : PmState} {env : PmEnv} {sender : Addr} {funds : L
         obtain ⟨rfl, rfl⟩ := h
         exact ⟨first, last, amt, out, fm, rfl, rfl, mustPay_ok hpay, hroute, rfl⟩
       | some m =>
-        simp only [↓ite_err_ok, ↓pure_bind', pure_ok, Prod.mk.injEq] at h
+        simp only [↓ite_err_bind_ok, ↓pure_bind', pure_ok, Prod.mk.injEq] at h
         obtain ⟨-, rfl, rfl⟩ := h
         exact ⟨first, last, amt, out, fm, rfl, rfl, mustPay_ok hpay, hroute, rfl⟩
 
